@@ -36,7 +36,7 @@ package core
 //@ pure func ucInv(u *UseCase) bool =
 //@     u != nil && u.txPool != nil && u.fileRepo != nil &&
 //@     txInv(&u.allStore) && u.allStore.WithoutSearch &&
-//@     (forall id string :: has(u.txStore.store, id) ==> regOk(u, id)) &&
+//@     !has(u.txStore.store, "") && (forall id string :: has(u.txStore.store, id) ==> regOk(u, id)) &&
 //@     linkInv(u) && seqInv()
 
 // storeToTx appends version f (freshly sequenced) to the transaction's list of its key and to the all-store.
@@ -46,3 +46,42 @@ package core
 //@   requires fresh:  f.Seq > 0 && f.Seq <= sequence.seq && forall m *core.Node[model.File] :: m.owner != nil ==> m.v.Seq < f.Seq
 //@   ensures  inv:    ucInv(u)
 
+//@   modifies model.File.*, core.Node[model.File].next, core.Node[model.File].prev, core.Node[model.File].link, core.Node[model.File].linkOf, core.Node[model.File].owner, core.Node[model.File].idx,
+//@            core.List[model.File].elems, core.file.arr, core.file.withoutSearch, core.file.gtx, core.file.gkey, mem[*core.Node[model.File]], backing.owner,
+//@            core.Transaction.store, map[string]*core.file, mapref.mowner
+//@   ensures  txhas:   has(tx.store, f.Key) && len(tx.store[f.Key].l.elems) >= 1 && *tx.store[f.Key].l.elems[len(tx.store[f.Key].l.elems)-1].v == f
+//@   ensures  txmore:  old(has(tx.store, f.Key)) ==> tx.store[f.Key] == old(tx.store[f.Key]) && len(tx.store[f.Key].l.elems) == len(old(tx.store[f.Key].l.elems)) + 1 &&
+//@                        forall i int :: 0 <= i && i < len(old(tx.store[f.Key].l.elems)) ==> tx.store[f.Key].l.elems[i] == old(tx.store[f.Key].l.elems)[i]
+//@   ensures  txfirst: !old(has(tx.store, f.Key)) ==> len(tx.store[f.Key].l.elems) == 1
+//@   ensures  allhas:  has(u.allStore.store, f.Key) && len(u.allStore.store[f.Key].l.elems) >= 1 &&
+//@                        *u.allStore.store[f.Key].l.elems[len(u.allStore.store[f.Key].l.elems)-1].v == f
+//@   ensures  keys:    forall k string :: k != f.Key ==> has(tx.store, k) == old(has(tx.store, k)) && (has(tx.store, k) ==> tx.store[k] == old(tx.store[k]))
+//@   ensures  lists:   forall l *core.List[model.File] :: l != &tx.store[f.Key].l && l != &u.allStore.store[f.Key].l ==> l.elems == old(l.elems)
+//@   ensures  values:  forall m *core.Node[model.File] :: old(m.owner) != nil ==> m.v.Seq == old(m.v.Seq) && m.v.Key == old(m.v.Key) && m.v.TxId == old(m.v.TxId) && m.v.ContentId == old(m.v.ContentId)
+//@   ensures  txs:     forall t *core.Transaction :: t != tx && t != &u.allStore ==> t.store == old(t.store)
+//@   ensures  maps:    forall mp map[string]*core.file :: mp != nil && mp != tx.store && mp != u.allStore.store && allocated(mp) ==>
+//@                        forall k string :: has(mp, k) == old(has(mp, k)) && mp[k] == old(mp[k])
+
+// Store: draw a fresh sequence number, persist the record, then append the version to the
+// caller's transaction and to the all-store.  Nothing is appended unless the record was persisted,
+// and what is appended is exactly what was persisted.
+//@ func (*UseCase).Store
+//@   requires inv:    ucInv(u)
+//@   requires txid:   f.TxId != ""
+//@   modifies model.File.*, core.Node[model.File].next, core.Node[model.File].prev, core.Node[model.File].link, core.Node[model.File].linkOf, core.Node[model.File].owner, core.Node[model.File].idx,
+//@            core.List[model.File].elems, core.file.arr, core.file.withoutSearch, core.file.gtx, core.file.gkey, mem[*core.Node[model.File]], backing.owner,
+//@            core.Transaction.store, core.Transaction.gid, core.Transactions.store, map[string]*core.file, map[string]*core.Transaction, mapref.mowner,
+//@            world.recSeq, world.recTx, world.recKey, world.hasRec, cell[uint64]
+//@   ensures  inv:     ucInv(u)
+//@   ensures  counter: sequence.seq > old(sequence.seq)
+//@   ensures  stored:  result == nil ==> has(u.txStore.store, f.TxId) && has(u.txStore.store[f.TxId].store, f.Key) &&
+//@                        len(u.txStore.store[f.TxId].store[f.Key].l.elems) >= 1
+//@   ensures  version: result == nil ==>
+//@                        u.txStore.store[f.TxId].store[f.Key].l.elems[len(u.txStore.store[f.TxId].store[f.Key].l.elems)-1].v.Key == f.Key &&
+//@                        u.txStore.store[f.TxId].store[f.Key].l.elems[len(u.txStore.store[f.TxId].store[f.Key].l.elems)-1].v.TxId == f.TxId &&
+//@                        u.txStore.store[f.TxId].store[f.Key].l.elems[len(u.txStore.store[f.TxId].store[f.Key].l.elems)-1].v.ContentId == f.ContentId &&
+//@                        u.txStore.store[f.TxId].store[f.Key].l.elems[len(u.txStore.store[f.TxId].store[f.Key].l.elems)-1].v.Seq > old(sequence.seq)
+//@   ensures  durable: result == nil ==> world.hasRec[f.ContentId] && world.recTx[f.ContentId] == f.TxId && world.recKey[f.ContentId] == f.Key &&
+//@                        world.recSeq[f.ContentId] == u.txStore.store[f.TxId].store[f.Key].l.elems[len(u.txStore.store[f.TxId].store[f.Key].l.elems)-1].v.Seq
+//@   ensures  failed:  result != nil ==> (forall l *core.List[model.File] :: l.elems == old(l.elems)) &&
+//@                        (forall c string :: world.hasRec[c] == old(world.hasRec[c]) && world.recSeq[c] == old(world.recSeq[c]) && world.recTx[c] == old(world.recTx[c]))
